@@ -1,9 +1,11 @@
 SPECIFICATION Spec
 CONSTANT MaxN = 5
-CONSTANT MaxQ = 3
+CONSTANT Extra = {0, 1, 2}
+CONSTANT ZeroTracked = TRUE
+CONSTANT MaxQ = 2
 CONSTANT W0 = 100
-CONSTANT TickW = {80, 132}
+CONSTANT TickW = {80}
 CONSTANT Guarded = TRUE
 VIEW View
-ACTION_CONSTRAINT Emit
+INVARIANT Emit
 CHECK_DEADLOCK FALSE
